@@ -326,5 +326,6 @@ def selftest():
     # predicates
     assert tri_ok(fr_pts([(0, 0, 0), (1, 0, 0), (0, 1, 0)]), (0, 1, 2))
     assert not tri_ok(fr_pts([(0, 0, 0), (10, 0, 0), (5, 0, 0)]), (0, 1, 2))
-    assert not tri_ok(fr_pts([(0, 0, 0), (10, 0, 0), (5, 1, 0)]), (0, 1, 2))       # 11.3 deg at both ends? no: atan(1/5)=11.3 -> ok
+    assert tri_ok(fr_pts([(0, 0, 0), (10, 0, 0), (5, 1, 0)]), (0, 1, 2))            # atan(1/5) = 11.3 deg
+    assert not tri_ok(fr_pts([(0, 0, 0), (20, 0, 0), (10, 1, 0)]), (0, 1, 2))       # atan(1/10) = 5.7 deg
     return True
